@@ -37,6 +37,7 @@ type staticCase struct {
 	Sections []string             `json:"sections"`
 	Cores    int                  `json:"cores"`
 	Split    int                  `json:"split"` // partition selector for multi-file compact worlds
+	Order    string               `json:"order"` // "" = ID order, "rev" = reverse ID order (areas arrive before their paths)
 }
 
 func features(w obs.AWorld, skipCollections bool, only func(name string) bool) []ingest.Feature {
@@ -50,8 +51,16 @@ func features(w obs.AWorld, skipCollections bool, only func(name string) bool) [
 		}
 		fs = append(fs, obs.ToIngest(n, w[n]))
 	}
+	if feedOrder == "rev" {
+		for i, j := 0, len(fs)-1; i < j; i, j = i+1, j-1 {
+			fs[i], fs[j] = fs[j], fs[i]
+		}
+	}
 	return fs
 }
+
+// feedOrder is the order in which the current case's source features are handed to the builders.
+var feedOrder = ""
 
 func buildBasicFromSource(w obs.AWorld, cores int) (b6.World, error) {
 	o := &ingest.BuildOptions{Cores: cores}
@@ -85,8 +94,17 @@ func buildCompactWorld(w obs.AWorld, cores int) (b6.World, error) {
 //	split 2: three files: points; paths and areas (overlay against the first); relations (overlay against both)
 func buildCompactSplit(w obs.AWorld, cores int, split int) (b6.World, error) {
 	isPoint := func(n string) bool { return n[0] == 'P' }
+	// the world is queried between merges too: answers about features that arrive with a later file must not stick
+	var ids []string
+	for n := range w {
+		ids = append(ids, n)
+	}
+	sort.Strings(ids)
+	probe := func(cw b6.World) {
+		obs.Observe(cw, ids, obs.Options{Keys: []string{"#s", "@t", "n"}, Refs: true, Each: true})
+	}
 	switch split {
-	case 1:
+	case 1, 4:
 		d1, err := buildCompact(features(w, true, isPoint), cores, nil)
 		if err != nil {
 			return nil, err
@@ -95,9 +113,18 @@ func buildCompactSplit(w obs.AWorld, cores int, split int) (b6.World, error) {
 		if err != nil {
 			return nil, err
 		}
+		probe(cw)
 		d2, err := buildCompact(features(w, true, func(n string) bool { return !isPoint(n) }), cores, cw)
 		if err != nil {
 			return nil, err
+		}
+		if split == 4 {
+			// the same two files loaded in the other order: the overlay file first, then the base it was built against
+			cw2 := compact.NewWorld()
+			if err := cw2.Merge(d2); err != nil {
+				return nil, err
+			}
+			return cw2, cw2.Merge(d1)
 		}
 		return cw, cw.Merge(d2)
 	case 3:
@@ -138,6 +165,7 @@ func buildCompactSplit(w obs.AWorld, cores int, split int) (b6.World, error) {
 			if err != nil {
 				return nil, err
 			}
+			probe(cw)
 			if err := cw.Merge(d); err != nil {
 				return nil, err
 			}
@@ -189,6 +217,7 @@ func runStatic(data json.RawMessage) vh.Verdict {
 	if cores < 1 {
 		cores = 1
 	}
+	feedOrder = c.Order
 	wc := &worldCase{IDs: c.IDs, Keys: c.Keys, Queries: c.Queries, Sections: c.Sections}
 	cm := &comparer{c: wc, class: strings.SplitN(c.Impl, "-", 2)[0]}
 	exp := expState{Eff: c.Eff, Obs: c.Obs}
@@ -234,15 +263,28 @@ func runStatic(data json.RawMessage) vh.Verdict {
 		case "concurrent-compact":
 			compactFamily = true
 			w, err = buildCompactWorld(c.Src, cores)
-		case "diff":
-			// C02: the compact world and the in-memory world built from the same source give the same answers
+		case "diff", "pardiff-compact", "pardiff-basic":
+			// differential impls build their two worlds in runDiff
 			return
 		default:
 			err = fmt.Errorf("unknown impl %q", c.Impl)
 		}
 	})
 	if c.Impl == "diff" {
-		return runDiff(&c, cm, cores)
+		return runDiff(&c, cm, cores, "diff",
+			func(src obs.AWorld) (b6.World, error) { return buildBasicFromSource(src, cores) },
+			func(src obs.AWorld) (b6.World, error) { return buildCompactWorld(src, cores) }, "basic", "compact")
+	}
+	if c.Impl == "pardiff-compact" {
+		// C36: the same source built with 1 and with N goroutines answers every query identically
+		return runDiff(&c, cm, cores, "pardiff-compact",
+			func(src obs.AWorld) (b6.World, error) { return buildCompactWorld(src, 1) },
+			func(src obs.AWorld) (b6.World, error) { return buildCompactWorld(src, cores) }, "1 goroutine", fmt.Sprintf("%d goroutines", cores))
+	}
+	if c.Impl == "pardiff-basic" {
+		return runDiff(&c, cm, cores, "pardiff-basic",
+			func(src obs.AWorld) (b6.World, error) { return buildBasicFromSource(src, 1) },
+			func(src obs.AWorld) (b6.World, error) { return buildBasicFromSource(src, cores) }, "1 goroutine", fmt.Sprintf("%d goroutines", cores))
 	}
 	if !built {
 		return vh.Verdict{OK: false, Key: cm.class + ":build:hang", Msg: "build did not finish within 240 s"}
@@ -369,81 +411,30 @@ func tryBuild(args []string) int {
 	return 0
 }
 
-// runDiff builds the source as a basic world and as a compact world and compares every read query (real vs real).
-func runDiff(c *staticCase, cm *comparer, cores int) vh.Verdict {
-	src := withoutCollections(c.Src)
+// runDiff builds the source twice (two world kinds, or two degrees of parallelism) and compares every read query
+// (real vs real).
+func runDiff(c *staticCase, cm *comparer, cores int, class string, buildA, buildB func(obs.AWorld) (b6.World, error), nameA, nameB string) vh.Verdict {
+	src := c.Src
+	if class != "pardiff-basic" {
+		src = withoutCollections(c.Src)
+	}
 	var bw, cw b6.World
 	var err1, err2 error
-	if !obs.WithDeadline(60*time.Second, func() {
-		bw, err1 = buildBasicFromSource(src, cores)
-		cw, err2 = buildCompactWorld(src, cores)
+	if !obs.WithDeadline(240*time.Second, func() {
+		bw, err1 = buildA(src)
+		cw, err2 = buildB(src)
 	}) {
-		return vh.Verdict{OK: false, Key: "diff:build:hang", Msg: "build did not finish within 60 s"}
+		return vh.Verdict{OK: false, Key: class + ":build:hang", Msg: "build did not finish within 240 s"}
 	}
 	if err1 != nil || err2 != nil {
-		return vh.Verdict{OK: false, Key: "diff:build:error", Msg: fmt.Sprintf("build failed: basic %v compact %v", err1, err2)}
+		return vh.Verdict{OK: false, Key: class + ":build:error", Msg: fmt.Sprintf("build failed: %s %v; %s %v", nameA, err1, nameB, err2)}
 	}
 	opts := obs.Options{Keys: c.Keys, Queries: c.Queries, Refs: true, Each: true, Traverse: true, EachCores: cores}
 	var a, b obs.Observation
 	if !obs.WithDeadline(30*time.Second, func() { a = obs.Observe(bw, c.IDs, opts); b = obs.Observe(cw, c.IDs, opts) }) {
-		return vh.Verdict{OK: false, Key: "diff:observe:hang", Msg: "observation did not finish within 30 s"}
+		return vh.Verdict{OK: false, Key: class + ":observe:hang", Msg: "observation did not finish within 30 s"}
 	}
-	add := func(section, what, msg string) {
-		cm.out = append(cm.out, mismatch{Step: -1, Section: section, Key: "diff:" + section + ":" + what, Msg: msg})
-	}
-	for _, n := range c.IDs {
-		if d := diffFeature(n, a.Features[n], b.Features[n]); d != "" {
-			add("lookup", d, fmt.Sprintf("lookup %s: basic %s compact %s", n, obs.Canon(a.Features[n]), obs.Canon(b.Features[n])))
-		}
-	}
-	if d := listDiff(a.Each, b.Each); d != "" {
-		add("each", d, fmt.Sprintf("EachFeature: basic %v compact %v", a.Each, b.Each))
-	}
-	for _, qn := range vh.SortedKeys(a.Search) {
-		if d := listDiff(a.Search[qn], b.Search[qn]); d != "" {
-			add("search", qkind(qn)+":"+d, fmt.Sprintf("FindFeatures %s: basic %v compact %v", qn, a.Search[qn], b.Search[qn]))
-		}
-	}
-	for _, sec := range []struct {
-		name string
-		a, b map[string][]string
-	}{{"refs", a.Refs, b.Refs}, {"areas", a.Areas, b.Areas}, {"rels", a.Rels, b.Rels}, {"traverse", a.Traverse, b.Traverse}} {
-		for _, n := range c.IDs {
-			if _, ok := sec.a[n]; !ok {
-				continue
-			}
-			// what a world says about the referrers of a feature it does not contain is not specified, and
-			// FindAreasByPoint is only defined for points
-			if a.Features[n].Kind == "absent" || b.Features[n].Kind == "absent" || (sec.name == "areas" && n[0] != 'P') {
-				continue
-			}
-			if d := listDiff(sec.a[n], sec.b[n]); d != "" {
-				if sec.name == "traverse" {
-					d = "differs"
-					for _, f := range a.Features {
-						if f.Kind == "path" && len(f.Pts) > 2 && f.Pts[0] == f.Pts[len(f.Pts)-1] {
-							for _, p := range f.Pts {
-								if p == n && d == "differs" {
-									d = "inner-point-of-closed-way"
-								}
-							}
-							if f.Pts[0] == n {
-								d = "closing-point-of-closed-way"
-							}
-						}
-					}
-				}
-				add(sec.name, "of-"+kindOfName(n)+":"+d, fmt.Sprintf("%s(%s): basic %v compact %v", sec.name, n, sec.a[n], sec.b[n]))
-			}
-		}
-	}
-	for _, p := range append(append([]string{}, a.Problems...), b.Problems...) {
-		fields := strings.Fields(p)
-		if len(fields) > 3 {
-			fields = fields[:3]
-		}
-		add("problems", strings.Join(fields, "_"), p)
-	}
+	compareTwo(cm, class, c.IDs, a, b, nameA, nameB)
 	var relevant []mismatch
 	for _, m := range cm.out {
 		for _, p := range c.Sections {
@@ -481,4 +472,68 @@ func firstDiffWithGeometry(a, b obs.Observation) string {
 		return "traverse"
 	}
 	return "other"
+}
+
+// compareTwo compares two real observations of what should be the same world section by section.
+func compareTwo(cm *comparer, class string, ids []string, a, b obs.Observation, nameA, nameB string) {
+	add := func(section, what, msg string) {
+		msg = strings.Replace(strings.Replace(msg, "basic ", nameA+" ", 1), "compact ", nameB+" ", 1)
+		cm.out = append(cm.out, mismatch{Step: -1, Section: section, Key: class + ":" + section + ":" + what, Msg: msg})
+	}
+	for _, n := range ids {
+		if d := diffFeature(n, a.Features[n], b.Features[n]); d != "" {
+			add("lookup", d, fmt.Sprintf("lookup %s: basic %s compact %s", n, obs.Canon(a.Features[n]), obs.Canon(b.Features[n])))
+		}
+	}
+	if d := listDiff(a.Each, b.Each); d != "" {
+		add("each", d, fmt.Sprintf("EachFeature: basic %v compact %v", a.Each, b.Each))
+	}
+	for _, qn := range vh.SortedKeys(a.Search) {
+		if d := listDiff(a.Search[qn], b.Search[qn]); d != "" {
+			add("search", qkind(qn)+":"+d, fmt.Sprintf("FindFeatures %s: basic %v compact %v", qn, a.Search[qn], b.Search[qn]))
+		}
+	}
+	for _, sec := range []struct {
+		name string
+		a, b map[string][]string
+	}{{"refs", a.Refs, b.Refs}, {"areas", a.Areas, b.Areas}, {"rels", a.Rels, b.Rels}, {"traverse", a.Traverse, b.Traverse}} {
+		for _, n := range ids {
+			if _, ok := sec.a[n]; !ok {
+				continue
+			}
+			// what a world says about the referrers of a feature it does not contain is not specified, and
+			// FindAreasByPoint is only defined for points
+			if a.Features[n].Kind == "absent" || b.Features[n].Kind == "absent" || (sec.name == "areas" && n[0] != 'P') {
+				continue
+			}
+			if obs.SameList(sec.a[n], sec.b[n]) {
+				continue
+			}
+			if d := listDiff(sec.a[n], sec.b[n]); d != "" {
+				if sec.name == "traverse" {
+					d = "differs"
+					for _, f := range a.Features {
+						if f.Kind == "path" && len(f.Pts) > 2 && f.Pts[0] == f.Pts[len(f.Pts)-1] {
+							for _, p := range f.Pts {
+								if p == n && d == "differs" {
+									d = "inner-point-of-closed-way"
+								}
+							}
+							if f.Pts[0] == n {
+								d = "closing-point-of-closed-way"
+							}
+						}
+					}
+				}
+				add(sec.name, "of-"+kindOfName(n)+":"+d, fmt.Sprintf("%s(%s): basic %v compact %v", sec.name, n, sec.a[n], sec.b[n]))
+			}
+		}
+	}
+	for _, p := range append(append([]string{}, a.Problems...), b.Problems...) {
+		fields := strings.Fields(p)
+		if len(fields) > 3 {
+			fields = fields[:3]
+		}
+		add("problems", strings.Join(fields, "_"), p)
+	}
 }
